@@ -243,10 +243,20 @@ def _check_accessors(a, when):
         got = a.walk(nm.lower())
         if len(got) != len(want) or any(x is not y for x, y in zip(got, want)):
             raise Bad("C20.walk", "walk-by-name-differs/" + when, f"walk({nm.lower()!r}) -> {len(got)}, expected {len(want)}")
+    # a result list belongs to the caller: emptying it must not change the tree or the next answer
+    w.clear()
+    w2 = a.walk()
+    if len(w2) != len(pre) or any(x is not y for x, y in zip(w2, pre)) or _own_preorder(a) != pre:
+        raise Bad("C20.walk", "walk-result-aliases-internal-state/" + when, f"{len(w2)} vs {len(pre)} after the first result was emptied")
     if isinstance(a, Calendar):
         for attr, nm in (("events", "VEVENT"), ("todos", "VTODO"), ("timezones", "VTIMEZONE")):
             want = [c for c in pre if c.name == nm]
+            first = getattr(a, attr)
+            if isinstance(first, list):
+                first.clear()
             got = getattr(a, attr)
+            if _own_preorder(a) != pre:
+                raise Bad("C20.accessors", f"accessor-{attr}-result-aliases-the-tree/" + when, "emptying the returned list changed the tree")
             if len(got) != len(want) or any(x is not y for x, y in zip(got, want)):
                 raise Bad("C20.accessors", f"accessor-{attr}-differs/" + when, f"{[str(c.get('UID', c.get('TZID', '?'))) for c in got]!r} vs {[str(c.get('UID', c.get('TZID', '?'))) for c in want]!r}")
 
